@@ -127,7 +127,7 @@ def build(case, mon):
     m = 1 << p
     k = case["kind"]
     pt = case.get("p_type")
-    hll = s.HyperLogLog(getattr(np, pt)(p) if pt else p, case.get("hll_seed", 0))
+    hll = state.maybe_relayout(s.HyperLogLog(getattr(np, pt)(p) if pt else p, case.get("hll_seed", 0)))
     if k == "zeros":
         reg = np.zeros(m, np.uint8)
     elif k == "all-max":
@@ -189,15 +189,34 @@ def thread_queries(ctx, mon):
     """query() is a pure function of the registers also when several threads ask at once (different sketches and the same)."""
     import threading
 
+    import sys
+
     s = sk()
     rng = ctx.rng("threads")
+    for group in ("different precisions", "one precision, different contents"):
+        _thread_group(s, rng, mon, group)
+    sys.setswitchinterval(0.005)
+
+
+def _thread_group(s, rng, mon, group):
+    import sys
+    import threading
+
     sketches, want = [], []
-    for p in (12, 14, 16, 10):
+    if group == "different precisions":
+        plan = [(p, pick(rng, [0.5, 3.0, 6.0, 20.0])) for p in (12, 14, 16, 10)]
+    else:
+        # whatever a query keeps per precision (scratch space, snapshots) belongs to one call: an empty sketch, a nearly empty one
+        # and two full ones of the same p are asked at the same time, with frequent thread switches
+        pp = pick(rng, [12, 14])
+        plan = [(pp, 0.0), (pp, 0.07), (pp, 3.0), (pp, 25.0)]
+        sys.setswitchinterval(1e-5)
+    for p, load in plan:
         h = s.HyperLogLog(p, 3)
-        h.registers[:] = ideal_registers(rng, p, int((1 << p) * pick(rng, [0.5, 3.0, 6.0, 20.0])))
+        h.registers[:] = ideal_registers(rng, p, int((1 << p) * load)) if load else 0
         sketches.append(h)
         want.append(float(h.query()))
-    case = {"threads": "concurrent-queries", "want": want}
+    case = {"threads": "concurrent-queries", "group": group, "want": want}
     mon.begin_case(case)
     wrong = [0] * len(sketches)
     errors = []
@@ -206,7 +225,7 @@ def thread_queries(ctx, mon):
     def work(i):
         barrier.wait()
         try:
-            for _ in range(1500):
+            for _ in range(1500 if group == "different precisions" else 4000):
                 if float(sketches[i].query()) != want[i]:
                     wrong[i] += 1
         except Exception as exc:  # noqa: BLE001
@@ -217,7 +236,7 @@ def thread_queries(ctx, mon):
         t.start()
     for t in ts:
         t.join()
-    mon.check(sum(wrong) == 0 and not errors, "threads:concurrent-query()-answers==single-thread-answers", wrong_per_sketch=wrong, errors=errors[:2])
+    mon.check(sum(wrong) == 0 and not errors, "threads:concurrent-query()-answers==single-thread-answers", wrong_per_sketch=wrong, errors=errors[:2], group=group)
     mon.count("thread_query_rounds")
     mon.nontrivial(True)
     mon.end_case()
@@ -230,7 +249,7 @@ def reused_object(ctx, mon):
     s = sk()
     rng = ctx.rng("reused")
     for p in (7, 8, 10, 12, 14):
-        h = s.HyperLogLog(p, 1)
+        h = state.maybe_relayout(s.HyperLogLog(p, 1))
         thr, raw_t, bias_t = float(h.threshold), np.array(h.raw_estimate), np.array(h.bias_data)
         m = 1 << p
         states = []
